@@ -186,7 +186,7 @@ bool containsCall(const Node& n) { if (n.k == K::FuncCall) return true; for (aut
 
 // ------------------------------------------------------------------------------------------------
 // C03
-std::vector<Node> arityFamily(); std::vector<Node> siblingFamily(); std::vector<Node> vclassFamily(); std::vector<Node> recursionFamily(); std::vector<Node> traitsFamily(); std::vector<Node> curated();
+std::vector<Node> arityFamily(); std::vector<Node> enumFamily(); std::vector<Node> siblingFamily(); std::vector<Node> vclassFamily(); std::vector<Node> recursionFamily(); std::vector<Node> traitsFamily(); std::vector<Node> curated();
 void run_types(Ctx& c, const Setup& setup, const rsgen::Generator& gen, int depth) {
   ImplEnv env(setup);
   uint64_t i = 0;
@@ -249,7 +249,7 @@ void run_types(Ctx& c, const Setup& setup, const rsgen::Generator& gen, int dept
     if (i % 7919 == 5) c.rep.sample(rsast::render(T, RenderOpt{}).text + (modelOk ? "  :  " + mr.type.str() : "  :  ill-typed (" + mr.why + ")"));
     c.done();
   };
-  try { for (auto& n : arityFamily()) one(Node(n)); for (auto& n : siblingFamily()) one(Node(n)); for (auto& n : vclassFamily()) one(Node(n)); for (auto& n : recursionFamily()) one(Node(n)); for (auto& n : traitsFamily()) one(Node(n)); for (auto& n : curated()) one(Node(n)); gen.scopeSkeletons(static_cast<int>(c.opt->num("scopebudget", 6)), one); gen.closedStream(depth, one); gen.imperativeChains(one, 2); streamDefinitions(gen, one); } catch (const StopEnumeration&) {}
+  try { for (auto& n : arityFamily()) one(Node(n)); for (auto& n : enumFamily()) one(Node(n)); for (auto& n : siblingFamily()) one(Node(n)); for (auto& n : vclassFamily()) one(Node(n)); for (auto& n : recursionFamily()) one(Node(n)); for (auto& n : traitsFamily()) one(Node(n)); for (auto& n : curated()) one(Node(n)); gen.scopeSkeletons(static_cast<int>(c.opt->num("scopebudget", 6)), one); gen.closedStream(depth, one); gen.imperativeChains(one, 2); streamDefinitions(gen, one); } catch (const StopEnumeration&) {}
 }
 
 
@@ -504,6 +504,20 @@ std::vector<Node> traitsFamily() {
   return out;
 }
 
+// Enumeration family (added after a round-11 seed): every enumeration of THREE elements over terms whose types are partly open
+// (empty sets), sets of different structure, tuples of those, elements and integers - all elements must merge into one type
+std::vector<Node> enumFamily() {
+  const std::string E = "\xE2\x88\x85";
+  const std::vector<std::string> el = { E, "{" + E + "}", "X1", "S1", "D1", "S2", "(" + E + ", 1)", "(X1, 2)", "(S2, 3)", "1", "D2", "D3" };
+  std::vector<Node> out; rl::Parser p;
+  for (auto& a : el) for (auto& b : el) for (auto& c2 : el) {
+    const std::string t = "{" + a + ", " + b + ", " + c2 + "}";
+    if (!p.Parse(t, rl::Syntax::MATH)) { fprintf(stderr, "HARNESS-ASSERT: enum-family text does not parse: %s\n", t.c_str()); exit(2); }
+    out.push_back(fromImplTree(p.AST().Root()));
+  }
+  return out;
+}
+
 // Sibling-scope family (added after a round-6 seed): the SAME local name bound twice in sibling scopes over domains of different
 // structure, each body using the variable according to one of the structures - every (domain, body) x (domain, body) combination.
 std::vector<Node> siblingFamily() {
@@ -617,7 +631,7 @@ void run_eval(Ctx& c, const Setup& setup, const rsgen::Generator& gen, int depth
     if (i % 4001 == 3) c.rep.sample(text + "  under " + std::to_string(interps) + " interpretations");
     c.done();
   };
-  try { for (auto& n : curated()) one(Node(n)); for (auto& n : arityFamily()) one(Node(n)); for (auto& n : siblingFamily()) one(Node(n)); gen.imperativeChains(one, static_cast<size_t>(c.opt->num("impblocks", compareModel ? 3 : 2)), static_cast<size_t>(c.opt->num("impcap", compareModel ? 5 : 3))); gen.closedStream(depth, one); } catch (const StopEnumeration&) {}
+  try { for (auto& n : curated()) one(Node(n)); for (auto& n : arityFamily()) one(Node(n)); for (auto& n : enumFamily()) one(Node(n)); for (auto& n : siblingFamily()) one(Node(n)); gen.imperativeChains(one, static_cast<size_t>(c.opt->num("impblocks", compareModel ? 3 : 2)), static_cast<size_t>(c.opt->num("impcap", compareModel ? 5 : 3))); gen.closedStream(depth, one); } catch (const StopEnumeration&) {}
 }
 
 }  // namespace
